@@ -4,6 +4,7 @@ package main
 
 import (
 	"fmt"
+	"go/constant"
 	"go/token"
 	"go/types"
 	"sort"
@@ -280,42 +281,123 @@ func ruleCHECKSUMCOVERAGE(p *Program, rep *Report) {
 			csOff = offs[i]
 		}
 	}
-	// hashed array length in computeChecksum
+	// byte range handed to the hash in computeChecksum: every Write on the hash gets a slice of a byte array
+	// laid over the header; the constant bounds of those slices must add up to exactly [0, offset of checksum).
 	compute := p.Method("txfile", "metaPage", "computeChecksum")
 	rep.Analysed(funcName(compute))
-	var lens []int64
+	type rng struct{ lo, hi int64 }
+	var ranges []rng
+	undecided := ""
 	for _, b := range compute.Blocks {
 		for _, ins := range b.Instrs {
-			v, ok := ins.(ssa.Value)
+			c, ok := ins.(ssa.CallInstruction)
 			if !ok {
 				continue
 			}
-			t := v.Type()
-			if pt, ok := t.Underlying().(*types.Pointer); ok {
-				t = pt.Elem()
+			name := ""
+			if c.Common().IsInvoke() {
+				name = c.Common().Method.Name()
+			} else if cal := c.Common().StaticCallee(); cal != nil && cal.Signature.Recv() != nil {
+				name = cal.Name()
 			}
-			if at, ok := t.Underlying().(*types.Array); ok {
-				if bt, ok := at.Elem().Underlying().(*types.Basic); ok && bt.Kind() == types.Uint8 {
-					lens = append(lens, at.Len())
-				}
+			if name != "Write" || len(c.Common().Args) == 0 {
+				continue
 			}
+			arg := c.Common().Args[len(c.Common().Args)-1]
+			lo, hi, ok := constByteRange(arg)
+			if !ok {
+				undecided = "the bytes handed to the hash at " + p.InstrPos(ins) + " are not a constant-bounded slice of a byte array"
+				continue
+			}
+			ranges = append(ranges, rng{lo, hi})
 		}
 	}
-	if len(lens) == 0 {
-		rep.Unknown("CHECKSUM-COVERAGE", "computeChecksum|hashed-length", p.Pos(compute.Pos()), "no byte array found in computeChecksum (anchor lost)")
+	cpos := p.Pos(compute.Pos())
+	if len(ranges) == 0 && undecided == "" {
+		rep.Unknown("CHECKSUM-COVERAGE", "computeChecksum|hashed-length", cpos, "no Write on a hash found in computeChecksum (anchor lost)")
 		return
 	}
-	good := true
-	for _, l := range lens {
-		if l != csOff {
-			good = false
+	if undecided != "" {
+		rep.Unknown("CHECKSUM-COVERAGE", "computeChecksum|hashed-length", cpos, undecided)
+		return
+	}
+	sort.Slice(ranges, func(i, j int) bool { return ranges[i].lo < ranges[j].lo })
+	var covered int64
+	var desc []string
+	for _, r := range ranges {
+		desc = append(desc, fmt.Sprintf("[%d,%d)", r.lo, r.hi))
+		if r.lo <= covered && r.hi > covered {
+			covered = r.hi
 		}
 	}
-	if good && csOff == sum-sizes.Sizeof(last.Type()) {
-		rep.OK("CHECKSUM-COVERAGE", "computeChecksum|hashed-length", p.Pos(compute.Pos()), fmt.Sprintf("hashes %d bytes = offset of checksum", csOff))
+	if covered == csOff && csOff == sum-sizes.Sizeof(last.Type()) && ranges[len(ranges)-1].hi <= csOff {
+		rep.OK("CHECKSUM-COVERAGE", "computeChecksum|hashed-length", cpos, fmt.Sprintf("hashes bytes %s = everything before the checksum field (offset %d)", strings.Join(desc, ","), csOff))
 	} else {
-		rep.Bad("CHECKSUM-COVERAGE", "computeChecksum|hashed-length", p.Pos(compute.Pos()), fmt.Sprintf("computeChecksum hashes %v byte(s) but the checksum field starts at offset %d: some header fields are not protected by the checksum", lens, csOff))
+		rep.Bad("CHECKSUM-COVERAGE", "computeChecksum|hashed-length", cpos, fmt.Sprintf("computeChecksum hashes header bytes %s but the checksum field starts at offset %d: the hashed range must be exactly [0,%d) — bytes outside it are not protected (or the checksum hashes itself)", strings.Join(desc, ","), csOff, csOff))
 	}
+}
+
+// constByteRange resolves a []byte value to the constant byte range [lo,hi) of the array it slices.
+func constByteRange(v ssa.Value) (lo, hi int64, ok bool) {
+	sl, isSl := v.(*ssa.Slice)
+	if !isSl {
+		return 0, 0, false
+	}
+	t := sl.X.Type()
+	if pt, isP := t.Underlying().(*types.Pointer); isP {
+		t = pt.Elem()
+	}
+	at, isA := t.Underlying().(*types.Array)
+	if !isA {
+		// re-slice of a slice: compose
+		l0, h0, ok0 := constByteRange(sl.X)
+		if !ok0 {
+			return 0, 0, false
+		}
+		lo, hi = l0, h0
+		if sl.Low != nil {
+			c, isC := constIntOf(sl.Low)
+			if !isC {
+				return 0, 0, false
+			}
+			lo = l0 + c
+		}
+		if sl.High != nil {
+			c, isC := constIntOf(sl.High)
+			if !isC {
+				return 0, 0, false
+			}
+			hi = l0 + c
+		}
+		return lo, hi, lo <= hi && hi <= h0
+	}
+	if bt, isB := at.Elem().Underlying().(*types.Basic); !isB || bt.Kind() != types.Uint8 {
+		return 0, 0, false
+	}
+	lo, hi = 0, at.Len()
+	if sl.Low != nil {
+		c, isC := constIntOf(sl.Low)
+		if !isC {
+			return 0, 0, false
+		}
+		lo = c
+	}
+	if sl.High != nil {
+		c, isC := constIntOf(sl.High)
+		if !isC {
+			return 0, 0, false
+		}
+		hi = c
+	}
+	return lo, hi, lo <= hi
+}
+
+func constIntOf(v ssa.Value) (int64, bool) {
+	v = stripConv(v)
+	if c, ok := v.(*ssa.Const); ok && c.Value != nil && c.Value.Kind() == constant.Int {
+		return constant.Int64Val(c.Value)
+	}
+	return 0, false
 }
 
 // ---- NO-PANIC-ON-INPUT ----
